@@ -29,7 +29,7 @@ def main():
     prop = a.prop.upper()
     mod = importlib.import_module('props.' + prop.lower())
     seed = vlib.seed_from_env()
-    rep = vlib.Report(prop, a.tier, seed)
+    rep = vlib.Report(prop, a.tier, seed, keep_replays=bool(a.replay))
     try:
         if a.replay:
             mod.replay(rep, a.replay)
